@@ -84,16 +84,19 @@ Lemma short_of_key k prefix : lower k = k -> has_prefix k (lower prefix) = false
 Proof. unfold short_of. intros -> ->. reflexivity. Qed.
 
 Lemma bound_env_is_auto_env_l w k ev :
-  w_prefix w <> [] -> lower k = k -> has_prefix k (lower (w_prefix w)) = false ->
-  flagkey_of_short (short_of ev (w_prefix w)) = flagkey (w_prefix w) k ->
-  cleanse (w_prefix w) (short_of ev (w_prefix w)) = autoenv (w_prefix w) k.
+  flagkey_of_short (short_of ev (w_prefix w)) = flagkey fixed (w_prefix w) k ->
+  cleanse fixed (w_prefix w) (short_of ev (w_prefix w)) = autoenv (w_prefix w) k.
 Proof.
-  intros Hp Hl Hn E. unfold flagkey in E. rewrite (short_of_key k _ Hl Hn) in E.
+  intros E. unfold flagkey in E. simpl in E.
   unfold flagkey_of_short in E. apply app_inv_head in E. apply app_inv_head in E.
-  unfold cleanse, autoenv, merge_prefix. destruct (w_prefix w) as [|c p] eqn:EP; [congruence|].
-  rewrite <- upper_repl_comm. f_equal. rewrite !repl_app. f_equal. f_equal.
-  rewrite <- (repl_repl (short_of ev (c :: p))), E. apply repl_repl.
+  assert (R : repl DOT USC (short_of ev (w_prefix w)) = repl DOT USC k).
+  { rewrite <- (repl_repl (short_of ev (w_prefix w))), E. apply repl_repl. }
+  unfold cleanse, autoenv, merge_prefix. destruct (w_prefix w) as [|c p] eqn:EP; simpl v_empty_sep; cbv iota.
+  - rewrite <- upper_repl_comm. f_equal. exact R.
+  - rewrite <- upper_repl_comm. f_equal. rewrite !repl_app. f_equal. f_equal. exact R.
 Qed.
+
+(* before the repair the two names differ as soon as the key starts with the prefix: see Props.prefix_strip_refuted *)
 
 (* ---------- reported names = honoured names ---------- *)
 Definition is_nil (s : str) : bool := match s with [] => true | _ => false end.
@@ -166,13 +169,13 @@ Proof.
 Qed.
 
 Lemma env_names_agree_l prefix m fs :
-  prefix <> [] -> nodot prefix = true -> tags_ok (Node m fs) ->
-  reported prefix (Node m fs) = honoured prefix (Node m fs).
+  nodot prefix = true -> tags_ok (Node m fs) ->
+  reported fixed prefix (Node m fs) = honoured prefix (Node m fs).
 Proof.
-  intros Hp Hd OK. unfold reported, honoured.
+  intros Hd OK. unfold reported, honoured.
   pose proof (names_agree_gen (Node m fs) [] OK) as H. simpl wrap in H.
   assert (E : map (wrap []) (flat (Node m fs)) = flat (Node m fs)) by (unfold wrap; apply map_id).
   rewrite E in H. rewrite <- H. rewrite map_map. apply map_ext. intros l.
-  unfold autoenv, merge_prefix, G. destruct prefix as [|c p]; [congruence|].
+  unfold autoenv, merge_prefix, G. destruct prefix as [|c p]; [reflexivity|].
   rewrite !upper_app, !repl_app. f_equal. symmetry. apply nodot_repl. now rewrite nodot_upper.
 Qed.
